@@ -94,8 +94,35 @@ var (
 	radPool     = []float64{0.5, 1, -1.5, 3, 6.25, 0.25, -0.125, 100, 3.1416}
 	turnPool    = []float64{0.25, 0.5, -0.125, 1, 2.75, 0.0625, -1.5}
 	percPool    = []float64{10, 25, 50, 100, -50, 200, 12.5, -25, 0}
-	lenUnitPool = []string{"px", "px", "px", "px", "%", "%", "pt", "pc", "in", "cm", "mm", "q", "em", "rem"}
+	lenUnitPool = []string{"px", "px", "px", "px", "%", "%", "pt", "pc", "in", "cm", "mm", "q", "em", "rem", "ex", "ch"}
+	// units whose computed value depends on the element (its font): CSS Values 3 §5.1.1
+	fontRelUnits = []string{"em", "em", "ex", "ch"}
 )
+
+func isFontRel(u string) bool { return u == "em" || u == "ex" || u == "ch" }
+
+// hasFontRel reports whether the list has a non-zero length in a unit relative to the element's font.
+func hasFontRel(fs []fn) bool {
+	for _, f := range fs {
+		for _, a := range f.Args {
+			if isFontRel(a.U) && a.V != 0 {
+				return true
+			}
+		}
+	}
+	return false
+}
+
+func hasPercent(fs []fn) bool {
+	for _, f := range fs {
+		for _, a := range f.Args {
+			if a.U == "%" && a.V != 0 {
+				return true
+			}
+		}
+	}
+	return false
+}
 
 func unitCase(r *rand.Rand, u string) string {
 	if u == "%" || u == "" || !genUpperCaseUnits {
@@ -133,7 +160,44 @@ func genLen(r *rand.Rand) arg {
 	case "q":
 		return arg{V: q(r, -100, 100), U: u}
 	}
-	return arg{V: q(r, -5, 5), U: u} // em, rem
+	return arg{V: q(r, -5, 5), U: u} // em, rem, ex, ch
+}
+
+func genFontRelLen(r *rand.Rand) arg {
+	for {
+		if v := q(r, -5, 5); v != 0 {
+			return arg{V: v, U: pick(r, fontRelUnits)}
+		}
+	}
+}
+
+// genCSSListElemDep builds a non-singular list of 2–4 functions, one of which is a translation by
+// lengths relative to the element's font: the declared value is one, its computed value differs
+// from element to element.  (A translation does not change the linear part, so the condition of
+// the list is that of the list it is inserted in.)
+func genCSSListElemDep(r *rand.Rand) []fn {
+	for {
+		fs := genCSSList(r, false)
+		if len(fs) >= 4 {
+			continue
+		}
+		var f fn
+		switch r.Intn(4) {
+		case 0:
+			f = fn{Name: "translate", Args: []arg{genFontRelLen(r)}}
+		case 1:
+			f = fn{Name: "translate", Args: []arg{pick(r, []arg{genFontRelLen(r), genLen(r)}), genFontRelLen(r)}}
+		case 2:
+			f = fn{Name: "translateX", Args: []arg{genFontRelLen(r)}}
+		default:
+			f = fn{Name: "translateY", Args: []arg{genFontRelLen(r)}}
+		}
+		f.Text = cssFnText(r, f.Name, f.Args)
+		at := r.Intn(len(fs) + 1)
+		out := append([]fn(nil), fs[:at]...)
+		out = append(out, f)
+		return append(out, fs[at:]...)
+	}
 }
 
 // genAngle returns a CSS angle; forTan bounds |tan| for skews.
